@@ -498,6 +498,10 @@ def next_psuedo_matches(state: TokenizerState) -> TokenInfo | None:
     if (not match) or (not match.lastgroup):
         return None
     start, end = match.span(match.lastgroup)
+    if match.lastgroup == "Name" and end < state.max and not state.line[end].isascii():
+        # identifier characters that \w does not cover (combining marks, variation selectors)
+        while end < state.max and state.line[start : end + 1].isidentifier():
+            end += 1
     spos, epos, state.pos = (state.lnum, start), (state.lnum, end), end
     token = state.line[start:end]
 
